@@ -101,3 +101,15 @@ Definition walk_root (t : gnode) : tr := walk w_root None t.
 Definition walk_events (t : gnode) : list event := fst (walk_root t).
 
 End Walk.
+
+(* well-bracketed event lists: a skipped node is a lone enter; any other node is its enter, a
+   well-bracketed list, and its leave carrying the same node, key, parent and ancestors *)
+Inductive nested (pol : N -> phase -> action) : list event -> Prop :=
+| N_nil : nested pol []
+| N_app l1 l2 : nested pol l1 -> nested pol l2 -> nested pol (l1 ++ l2)
+| N_skip e : e_phase e = PEnter -> pol (e_id e) PEnter = Skip -> nested pol [e]
+| N_node e l e' :
+    e_phase e = PEnter -> e_phase e' = PLeave -> pol (e_id e) PEnter = Continue ->
+    e_id e' = e_id e -> e_kind e' = e_kind e -> e_key e' = e_key e ->
+    e_parent e' = e_parent e -> e_ancs e' = e_ancs e ->
+    nested pol l -> nested pol (e :: l ++ [e']).
